@@ -1,10 +1,9 @@
 (** C20 lemmas, part c: path algebra ("seg/.." removal, directory, split/join of '/'-separated strings). *)
 From Coq Require Import NArith List Bool Lia Arith.
 Import ListNotations.
-From XV Require Import C20.Spec20 C20.Model20.
+From XV Require Import C20.Spec20 C20.Model20 C20.Hyps20.
 Local Open Scope N_scope.
 
-Definition is_dd (s : str) : bool := str_eqb s dotdot.
 
 Definition push (stk : list str) (s : str) : list str :=
   if is_dd s then
